@@ -32,7 +32,8 @@ META = {
         "ones and raises one paired flag for lots and one for aliquots; "
         "lots_qqs = lots + qqs, ilots maps lots."
         " Also: half_plus_q_regex completes before every element separator, ilots reads after the last 'L', parallel lots/qqs statements read one collection each, argument-over-attribute lock-down of the lot settings."
-        " Round 7: a flag test by prefix cannot be answered by a different flag (dup_lot / dup_lot_acreage); ilots evaluated on lot names the parser writes ('N2 of L7'); a substring pre-test in front of a regex search is implied by every enumerated member of the regex's language."),
+        " Round 7: a flag test by prefix cannot be answered by a different flag (dup_lot / dup_lot_acreage); ilots evaluated on lot names the parser writes ('N2 of L7'); a substring pre-test in front of a regex search is implied by every enumerated member of the regex's language."
+        ' Round 8: the duplicate scan is gated on the list it scans; a lot group is cut at the bounds of its whole match.'),
     'families': ['SEP', 'DEFUSE', 'PAIR', 'RX-LANG', 'FORWARD', 'DEADPARAM', 'SIB-DEFAULTS'],
 }
 
